@@ -82,6 +82,76 @@ def _path_b(eq, lhs, pts, vecs=None):
         pyr.reset_pyrates()
 
 
+def _run_points(func, args, names, smap, slots, second):
+    """value of the slots at the declared point and at a second point passed through the argument tuple
+    (second = {frontend path: value} for state variables and parameters)"""
+    import numpy as np
+    import pyr
+    idx = [int(np.asarray(smap[k]).reshape(-1)[0]) for k in slots]
+    r1 = np.array(func(*args), dtype=np.float64).reshape(-1)
+    out = [pyr.frac(r1[i]) for i in idx]
+    args2 = list(args)
+    y = np.array(args[1], dtype=np.float64).copy()
+    for k, v in second.items():
+        if k in smap:
+            y[int(np.asarray(smap[k]).reshape(-1)[0])] = v
+    args2[1] = y
+    args2[2] = np.zeros_like(args[2])
+    for j, nm in enumerate(names):
+        if j >= 3 and nm in second and np.asarray(args[j]).ndim == 0:
+            args2[j] = np.asarray(second[nm], dtype=np.float64)
+    r2 = np.array(func(*args2), dtype=np.float64).reshape(-1)
+    return out + [pyr.frac(r2[i]) for i in idx]
+
+
+def _compile(c):
+    return c.get_run_func('f', step_size=1e-3, file_name='m1', backend='default', solver='euler', float_precision='float64',
+                          vectorize=False, clear=False, in_place=False, verbose=False)
+
+
+def _path_pre(eq, lhs, pts):
+    """node A owns only a state variable with the name of the left-hand side (declared first), node B carries the tested
+    operator: B's variable is relabelled <lhs>_v1 *before* B's own constants are registered.  Points 0 and 2."""
+    from pyrates import OperatorTemplate, NodeTemplate, CircuitTemplate
+    import pyr
+    pyr.reset_pyrates()
+    try:
+        P0, P1, P2 = _vals(pts[0]), _vals(pts[1]), _vals(pts[2])
+        op0 = OperatorTemplate(name='op0', equations=[f"{lhs}' = -{lhs}"], variables={lhs: f'output({P1[lhs]})'})
+        variables = {k: v for k, v in P0.items() if k != lhs}
+        variables[lhs] = f'output({P0[lhs]})'
+        op = OperatorTemplate(name='op', equations=[eq], variables=variables)
+        c = CircuitTemplate(name='c', nodes={'A': NodeTemplate(name='nA', operators=[op0]), 'B': NodeTemplate(name='nB', operators=[op])})
+        func, args, names, smap = _compile(c)
+        return _run_points(func, args, names, smap, [f'B/op/{lhs}'], {f'B/op/{k}': v for k, v in P2.items()})
+    finally:
+        pyr.reset_pyrates()
+
+
+def _path_multi(eq, lhs, pts, u, usrc):
+    """one node, two source operators that both export `u`, the tested operator declares `u` as input: u = u_s1 + u_s2
+    (the equation string is rewritten by parser.replace).  Points 0 and 2; usrc = [[u1, u2] at point 0, [u1, u2] at point 2]."""
+    from pyrates import OperatorTemplate, NodeTemplate, CircuitTemplate
+    import pyr
+    pyr.reset_pyrates()
+    try:
+        P0, P2 = _vals(pts[0]), _vals(pts[2])
+        (a0, b0), (a2, b2) = [[float(Fr(x)) for x in pr] for pr in usrc]
+        s1 = OperatorTemplate(name='s1', equations=[f"{u}' = -{u}"], variables={u: f'output({a0})'})
+        s2 = OperatorTemplate(name='s2', equations=[f"{u}' = -2*{u}"], variables={u: f'output({b0})'})
+        variables = {k: v for k, v in P0.items() if k not in (lhs, u)}
+        variables[lhs] = f'output({P0[lhs]})'
+        variables[u] = 'input(0.0)'
+        tg = OperatorTemplate(name='tg', equations=[eq], variables=variables)
+        c = CircuitTemplate(name='c', nodes={'p': NodeTemplate(name='n', operators=[s1, s2, tg])})
+        func, args, names, smap = _compile(c)
+        second = {f'p/tg/{k}': v for k, v in P2.items() if k != u}
+        second[f'p/s1/{u}'] = a2; second[f'p/s2/{u}'] = b2
+        return _run_points(func, args, names, smap, [f'p/tg/{lhs}'], second)
+    finally:
+        pyr.reset_pyrates()
+
+
 def _guard(f, *a, **k):
     import pyr
     try:
@@ -99,7 +169,13 @@ def impl(case):
         for sp in case["spellings"]:
             eq = (f"{case['lhs']}' = {sp['s']}" if sp["form"] == "prime" else f"d/dt * {case['lhs']} = {sp['s']}")
             a = [_guard(_path_a, eq, case["lhs"], _vals(case["pts"][i])) for i in (0, 1)]
-            b = _guard(_path_b, eq, case["lhs"], case["pts"])
+            lay = sp.get("layout", "pair")
+            if lay == "pre":
+                b = _guard(_path_pre, eq, case["lhs"], case["pts"])
+            elif lay == "multi":
+                b = _guard(_path_multi, eq, case["lhs"], case["pts"], case["u"], case["usrc"])
+            else:
+                b = _guard(_path_b, eq, case["lhs"], case["pts"])
             outs.append({"eq": eq, "a": a, "b": b})
         return outs
     if kind == "lhs":
@@ -228,7 +304,7 @@ def spell(e, rng, st, lvl=0):
     return body
 
 
-STYLES = [dict(blanks=[0, 1], pow=["^"], extra=0.0, reorder=False, numvar=False),
+STYLES = [dict(blanks=[0, 0, 1], pow=["^"], extra=0.0, reorder=False, numvar=False),
           dict(blanks=[0, 0, 1, 2, 3], pow=["**"], extra=0.5, reorder=False, numvar=True),
           dict(blanks=[0, 1, 1], pow=["^", "**"], extra=0.2, reorder=True, numvar=True)]
 
@@ -261,8 +337,29 @@ def gen_expr_case(rng):
             p[lhs] = dy_val(rng)
             pts.append(p)
         forms = ["prime", "ddt", rng.choice(["prime", "ddt"])]
-        spellings = [dict(s=spell(e, rng, STYLES[i]), form=forms[i]) for i in range(3)]
-        return dict(kind="expr", lhs=lhs, names=names, ast=e, pts=pts, spellings=spellings)
+        rng.shuffle(forms)
+        # three circuit layouts, one per spelling: multi-source input (spelling 0), pair of nodes (1), preceded (2)
+        cand = sorted(idents(e) - {lhs, p2})
+        bases = sorted(pow_bases(e) - {lhs, p2})
+        u = rng.choice(bases) if bases and rng.random() < 0.8 else (rng.choice(cand) if cand else None)
+        layouts = ["multi" if u else "pair", "pair", "pre"]
+        usrc = None
+        if u:
+            usrc = []
+            for p in (0, 2):
+                a = Fr(rng.randint(-12, 12), 8)
+                usrc.append([str(a), str(Fr(pts[p][u]) - a)])
+        spellings = [dict(s=spell(e, rng, STYLES[i]), form=forms[i], layout=layouts[i]) for i in range(3)]
+        return dict(kind="expr", lhs=lhs, names=names, ast=e, pts=pts, spellings=spellings, u=u, usrc=usrc)
+
+
+def pow_bases(e):
+    if e[0] in ("num", "var"):
+        return set()
+    r = set().union(*[pow_bases(x) for x in e[1:] if isinstance(x, tuple)])
+    if e[0] == "pow" and e[1][0] == "var":
+        r.add(e[1][1])
+    return r
 
 
 IDS = ["x", "r", "d", "dd", "delta", "rd_t", "x_v1", "dt", "d_dt", "V", "r_in0", "weight", "u1", "ddt", "tdd"]
@@ -327,9 +424,19 @@ def gen_call_case(rng):
         s = rng.choice([f"index(v, {i})*{a} - x", f"({a} + {b})*index(v, {i}) + index(w,{j})*({c}+1)", f"index(v, {i})*({a} + {b})^2",
                         f"{a}*({b}+index(v,{i}))", f"index(v,{i}) + index(v,{i})*{a}", f"index(v, {i})*index(w, {j})",
                         f"index( w , {j} ) / 4 + ({a} + 2*index(v,{i}))*{b}", f"-index(v,{i})^2*{c}", f"no_op({a})*({b} + {c})",
-                        f"index(v,{i}) + {a}*index(w, {j})^2"])
+                        f"index(v,{i}) + {a}*index(w, {j})^2", f"{a} - index(v,{i})", f"{a} - 2*index(v,{i})*{b}",
+                        f"index( w , {j} ) / 4 - ({a} - index(v,{i}))*{b}", f"({a}-index(v,{i}))*{c} - index(w,{j})^2",
+                        f"no_op({a} + {b})*2", f"{c} - no_op({a} - {b})*{a}", f"-index(v,{i}) - index(w,{j})/2"])
         expect = "value"
-    elif cls < 0.85:
+    elif cls < 0.78:
+        # recorded finding F1: helper call inside a divisor (w holds powers of two so that a repaired code is compared exactly)
+        vecs["w"] = [dy_val(rng, True) for _ in range(4)]
+        s = rng.choice([f"{a}/index(w,{j})", f"({a} + {b})/index(w, {j})*{c}", f"x - {a}/index(w,{j})"])
+        pts = []
+        for _ in range(4):
+            p = {nm: dy_val(rng) for nm in names}; p[lhs] = dy_val(rng); pts.append(p)
+        return dict(kind="call", lhs=lhs, eq=f"{lhs}' = {s}", s=s, pts=pts, vecs=vecs, expect="value", finding_guard="no_call_in_divisor")
+    elif cls < 0.9:
         s = rng.choice([f"index(v + w, {i})", f"index(v*{a}, {i}) + {b}", f"{a}*index(w - v, {j})"]); expect = "KeyError"
     else:
         s = rng.choice([f"no_op({a}*({b} + {c}))", f"{a} + no_op(({b} + {c})*{a})"]); expect = "SyntaxError"
@@ -342,8 +449,8 @@ def gen_call_case(rng):
 def gen_support_case(rng):
     names = rng.sample(["r", "rr", "k", "weight", "x_v1", "tau"], 3)
     a, b, c = names
-    s = rng.choice([f"sin({a})*{b} - exp(-{c}^2)", f"pi*{a} + pi^2*{b}", f"exp({a}*{b}) / (1 + {c}^2)", f"sqrt({a}^2 + 1)*cos(pi*{b})",
-                    f"tanh({a} + {b})**2 - {c}/pi", f"sin(cos({a}))*pi - {b}", f"exp(-({a}-{b})^2/2)/sqrt(2*pi)"])
+    s = rng.choice([f"sin({a})*{b} - exp(-{c}^2)", f"pi*{a} + E^2*{b}", f"exp({a}*{b}) / (1 + {c}^2)", f"sqrt({a}^2 + 1)*cos(pi*{b})",
+                    f"tanh({a} + {b})**2 - {c}/pi", f"sin(cos({a}))*E - {b}", f"exp(1)*{a} - E*{b} + {c}", f"exp(-({a}-{b})^2/2)/sqrt(2*pi)"])
     pts = []
     for _ in range(4):
         p = {nm: str(Fr(rng.randint(-12, 12), 8)) for nm in names}; p["x"] = "0"; pts.append(p)
@@ -396,18 +503,18 @@ def cvecs(d):
     return clist([f"({cstr(k)}, {clist([cq(x) for x in v])})" for k, v in sorted((d or {}).items())])
 
 
-def expr_items(case, out):
-    """Coq items of an expr case: per spelling, per point, the values of path a (points 0,1) and path b (points 0..3)"""
-    items = []
-    for sp, o in zip(case["spellings"], out):
-        for p in range(4):
-            exp = [o["b"][p]] + ([o["a"][p]] if p < 2 else [])
-            items.append(f"({cqs(case['pts'][p])}, [], {cstr(sp['s'])}, {clist([cq(x) for x in exp])})")
+B_POINTS = {"pair": [0, 1, 2, 3], "pre": [0, 2], "multi": [0, 2]}
+
+
+def spelling_items(case, sp, o):
+    """Coq items of one spelling: per point the values of path a (points 0,1) and of the generated code (layout points)"""
+    bp = B_POINTS[sp.get("layout", "pair")]
+    items = {}
+    for p in range(4):
+        exp = ([o["b"][bp.index(p)]] if p in bp else []) + ([o["a"][p]] if p < 2 else [])
+        if exp:
+            items[p] = f"({cqs(case['pts'][p])}, [], {cstr(sp['s'])}, {clist([cq(x) for x in exp])})"
     return items
-
-
-def by_point(items):
-    return [clist(items[p::4]) for p in range(4)]
 
 
 def coq_lists(ctx, tag, defs, evals, shard_note=""):
@@ -418,22 +525,34 @@ def coq_lists(ctx, tag, defs, evals, shard_note=""):
 
 
 def compare_expr(ctx, cases, outs, tag):
-    """-> (bad, notsame): cases where some real value differs from the Coq value of the string; cases whose spellings do
-    not all have the same Coq value at some point (a harness printer error, never a verdict)"""
-    bad, notsame = [], []
+    """-> (bad, notsame, chain): bad = {case index: [spelling indices whose real values differ from the Coq value of the string]};
+    notsame = cases whose spellings do not all have the same Coq value at some point (a harness printer error, never a verdict);
+    chain = case indices whose `pre` spelling violates the guard no_label_chain"""
+    bad, notsame, chain = {}, [], []
     shard = 40
     for s in range(0, len(cases), shard):
         cs, os_ = cases[s:s + shard], outs[s:s + shard]
-        terms, same = [], []
-        for c, o in zip(cs, os_):
-            its = expr_items(c, o)
-            terms.append(clist(its))
-            same.append(clist(by_point(its)))
-        defs = (f"Definition cases : list (list item) := {clist(terms)}.\n"
-                f"Definition same : list (list (list item)) := {clist(same)}.\n")
-        l = coq_lists(ctx, f"c05_expr_{tag}_{s}", defs, ["mismatches ok_items cases", "mismatches (forallb same_value) same"])
-        bad += [s + i for i in l[0]]; notsame += [s + i for i in l[1]]
-    return bad, notsame
+        units, owner, same, gch = [], [], [], []
+        for ci, (c, o) in enumerate(zip(cs, os_)):
+            per_point = {}
+            for si, (sp, oo) in enumerate(zip(c["spellings"], o)):
+                its = spelling_items(c, sp, oo)
+                units.append(clist(list(its.values()))); owner.append((ci, si))
+                for p, it in its.items():
+                    per_point.setdefault(p, []).append(it)
+            same.append(clist([clist(v) for v in per_point.values()]))
+            pre = [sp["s"] for sp in c["spellings"] if sp.get("layout") == "pre"]
+            gch.append(f"({cstr(c['lhs'])}, {cstr(pre[0] if pre else '0')})")
+        defs = (f"Definition cases : list (list item) := {clist(units)}.\n"
+                f"Definition same : list (list (list item)) := {clist(same)}.\n"
+                f"Definition gch : list (string * string) := {clist(gch)}.\n")
+        l = coq_lists(ctx, f"c05_expr_{tag}_{s}", defs, ["mismatches ok_items cases", "mismatches (forallb same_value) same",
+                                                          "mismatches (fun p => guard_chain (s2l (fst p)) (s2l (snd p))) gch"])
+        for j in l[0]:
+            ci, si = owner[j]
+            bad.setdefault(s + ci, []).append(si)
+        notsame += [s + i for i in l[1]]; chain += [s + i for i in l[2]]
+    return bad, notsame, chain
 
 
 def lhs_terms(case, out):
@@ -498,7 +617,9 @@ def compare_call(ctx, cases, outs, tag):
     if terms:
         l = coq_lists(ctx, f"c05_call_{tag}", f"Definition cases : list (list item) := {clist(terms)}.\n", ["mismatches ok_items cases"])
         bad += [idx[j] for j in l[0]]
-    return sorted(bad)
+    g = coq_lists(ctx, f"c05_callg_{tag}", f"Definition ss : list string := {clist([cstr(c['s']) for c in cases])}.\n",
+                  ["mismatches (fun s => guard_divisor (s2l s)) ss"])[0]
+    return sorted(bad), g
 
 
 def coq_reading(ctx, strings, tag):
@@ -550,9 +671,20 @@ def shrink_expr(ctx, case):
     for sp in case["spellings"]:
         cand = dict(case, spellings=[sp])
         o = run_impl(ctx, "c05", "impl", [cand], nworkers=1)[0]
-        if crashed_expr(o) or compare_expr(ctx, [cand], [o], "shr")[0]:
+        if crashed_expr([o] if isinstance(o, dict) else o) or compare_expr(ctx, [cand], [o], "shr")[0]:
             return cand
     return best
+
+
+def witness_fails(ctx, f):
+    """re-run the committed witness of a known finding on the real code: True if it still disagrees"""
+    c = json.load(open(os.path.join(VERIF, f["witness"])))
+    o = run_impl(ctx, "c05", "impl", [c], nworkers=1)[0]
+    if c["kind"] == "expr":
+        return crashed_expr(o) or bool(compare_expr(ctx, [c], [o], "wit")[0])
+    if c["kind"] == "call":
+        return bool(compare_call(ctx, [c], [o], "wit")[0])
+    return isinstance(o, dict)
 
 
 def check(ctx):
@@ -562,7 +694,6 @@ def check(ctx):
     n_expr, n_lhs, n_surg, n_call, n_sup = (130, 12, 12, 40, 16) if quick else (3000, 150, 150, 600, 200)
     if problem:
         n_expr *= 3
-    listed = {f.get("guard") for f in known_findings("C05")}
     if ctx.replay:
         rp = json.load(open(ctx.replay))
         cases = [rp["case"]] if "case" in rp else []
@@ -575,15 +706,33 @@ def check(ctx):
     bad_spec, bad_impl, crashed, guard_viol = [], [], [], {}
     crashed += [i for i, o in enumerate(outs) if isinstance(o, dict) and o.get("err") in ("worker-died", "timeout", "exception")]
     # --- expr
+    def chain_py(c):
+        ids = idents(tuple_ast(c["ast"]))
+        return c["lhs"] in ids and (c["lhs"] + "_v1") in ids
+    def only_pre_failed(c, o, bad_sp=None):
+        """the failure is confined to the spelling compiled in the `pre` layout"""
+        if bad_sp is None:
+            bad_sp = [k for k, x in enumerate(o) if isinstance(x["b"], dict) or any(isinstance(a, dict) for a in x["a"])] if not isinstance(o, dict) else []
+        return bool(bad_sp) and all(c["spellings"][k].get("layout") == "pre" for k in bad_sp)
     ie = [i for i in K("expr") if i not in crashed]
     cr = [i for i in ie if crashed_expr(outs[i])]
     crashed += cr
+    for i in cr:
+        if chain_py(cases[i]) and only_pre_failed(cases[i], outs[i]):
+            guard_viol[i] = ["no_label_chain"]
     ie = [i for i in ie if i not in cr]
-    b, notsame = compare_expr(ctx, [cases[i] for i in ie], [outs[i] for i in ie], "main") if ie else ([], [])
+    b, notsame, chain = compare_expr(ctx, [cases[i] for i in ie], [outs[i] for i in ie], "main") if ie else ({}, [], [])
     assert not notsame, f"harness printer produced spellings with different Coq values: {[cases[ie[j]]['spellings'] for j in notsame[:2]]}"
-    bad_spec += [ie[j] for j in b]; bad_impl += [ie[j] for j in b]
-    n_eval = sum(len(cases[i]["spellings"]) * 6 for i in ie)
-    ctx.note(f"expr: {len(ie)} expressions x 3 spellings x (2 direct + 4 generated-code) evaluations = {n_eval}; mismatches {len(b)}, raised {len(cr)}")
+    assert sorted(chain) == [j for j, i in enumerate(ie) if chain_py(cases[i])], "guard no_label_chain: Coq and harness disagree"
+    for j, bad_sp in b.items():
+        i = ie[j]
+        bad_spec.append(i); bad_impl.append(i)
+        if j in chain and only_pre_failed(cases[i], outs[i], bad_sp):
+            guard_viol[i] = ["no_label_chain"]
+    n_eval = sum(len(B_POINTS[sp.get("layout", "pair")]) + 2 for i in ie for sp in cases[i]["spellings"])
+    lay = {l: sum(1 for i in ie for sp in cases[i]["spellings"] if sp.get("layout", "pair") == l) for l in B_POINTS}
+    ctx.note(f"expr: {len(ie)} expressions x 3 spellings, layouts {lay}, {n_eval} evaluations (2 direct + 2..4 generated-code per spelling); "
+             f"mismatching cases {len(b)} (of which outside guard no_label_chain: {sum(1 for j in b if ie[j] in guard_viol)}), raised {len(cr)}")
     # --- lhs
     il = [i for i in K("lhs") if i not in crashed]
     if il:
@@ -599,31 +748,29 @@ def check(ctx):
     # --- helper calls through the generated code
     ic = [i for i in K("call") if i not in crashed]
     if ic:
-        b = compare_call(ctx, [cases[i] for i in ic], [outs[i] for i in ic], "main")
+        b, g = compare_call(ctx, [cases[i] for i in ic], [outs[i] for i in ic], "main")
+        for j in g:
+            guard_viol[ic[j]] = ["no_call_in_divisor"]
+        assert sorted(g) == [j for j, i in enumerate(ic) if cases[i].get("finding_guard") == "no_call_in_divisor"], "guard no_call_in_divisor: Coq and generator disagree"
         for j in b:
-            i = ic[j]
-            if cases[i].get("finding_guard"):
-                guard_viol[i] = [cases[i]["finding_guard"]]
-                if cases[i]["finding_guard"] not in listed:
-                    ctx.note(f"proposed finding (not yet in known_findings.json) reproduces on its witness: {cases[i]['eq']} -> {outs[i]}")
-                    continue
-            bad_spec.append(i); bad_impl.append(i)
-        ctx.note(f"call: {len(ic)} equations with index()/no_op() helpers; disagreements {len(b)}")
-    # --- support (never deciding)
+            bad_spec.append(ic[j]); bad_impl.append(ic[j])
+        ctx.note(f"call: {len(ic)} equations with index()/no_op() helpers; disagreements {len(b)} (outside guard no_call_in_divisor: {sum(1 for j in b if j in g)})")
+    # --- support: values never decide (tolerance); an exception does (it is exact)
     isu = [i for i in K("support") if i not in crashed]
     if isu:
-        off = compare_support(ctx, [cases[i] for i in isu], [outs[i] for i in isu], "main")
-        for j in [j for j in off if cases[isu[j]].get("finding_guard")]:
-            ctx.note(f"proposed finding ({cases[isu[j]]['finding_guard']}) reproduces on its witness: {cases[isu[j]]['eq']} -> {str(outs[isu[j]])[:120]}")
-        off = [j for j in off if not cases[isu[j]].get("finding_guard")]
-        ctx.note(f"support stream (tolerance 1e-12, not deciding): {len(isu)} transcendental expressions, {len(off)} outside the tolerance"
-                 + (f": {[cases[isu[j]]['eq'] for j in off[:3]]}" if off else ""))
+        raised = [i for i in isu if isinstance(outs[i], dict)]
+        crashed += raised
+        isu = [i for i in isu if i not in raised]
+        off = compare_support(ctx, [cases[i] for i in isu], [outs[i] for i in isu], "main") if isu else []
+        ctx.note(f"support stream (tolerance 1e-12, values not deciding): {len(isu)} transcendental expressions, {len(off)} outside the tolerance"
+                 + (f": {[cases[isu[j]]['eq'] for j in off[:3]]}" if off else "") + f"; raised {len(raised)}")
     bad_spec = sorted(set(bad_spec)); bad_impl = sorted(set(bad_impl)); crashed = sorted(set(crashed))
     conclude(ctx, cases=cases, impl_out=outs, bad_spec=bad_spec, bad_impl=bad_impl, crashed=crashed, problem=problem, guard_viol=guard_viol,
              spec_name="Lang.parse + Lang.eval on the same string (and Lang.classify / Lang.process_func_call for the string handling)",
              impl_name="Lang.classify / Lang.process_func_call",
              shrink=lambda c: shrink_expr(ctx, c) if c["kind"] == "expr" else c,
-             show=lambda c: show_case(ctx, c, run_impl(ctx, "c05", "impl", [c], nworkers=1)[0]))
+             show=lambda c: show_case(ctx, c, run_impl(ctx, "c05", "impl", [c], nworkers=1)[0]),
+             witness_check=lambda f: witness_fails(ctx, f))
     ex = [cases[i] for i in K("expr")]
     nt = {canon(c["ast"]) for c in ex if nontrivial(c)}
     hist = dict(expr=len(ex), lhs_equations=sum(len(cases[i]["eqs"]) for i in K("lhs")), surgery_calls=sum(len(cases[i]["items"]) for i in K("surg")),
@@ -635,7 +782,8 @@ def check(ctx):
     write_evidence(ctx, evaluations=n_eval, distinct_nontrivial=len(nt),
                    rule="random polynomial ASTs of depth <= 4 over 2-5 identifiers from a pool with prefixes/suffixes/generated-looking names, "
                         "each in 3 spellings (spacing, ^ vs **, redundant parentheses, commuted operands, literal variants, repeated sub-expressions), "
-                        "both derivative notations, 2 evaluation paths, 4 dyadic points; an expression is non-trivial when its depth is >= 2 and it "
+                        "both derivative notations, direct evaluation + generated code of three circuit layouts (two nodes with the same operator, a node "
+                        "preceded by another owner of the variable name, an input fed by two operators), 2-4 dyadic points; an expression is non-trivial when its depth is >= 2 and it "
                         "mentions >= 2 distinct identifiers; distinct = distinct AST",
                    samples=[sample], extra=dict(input_distribution=hist, impl_vs_spec_mismatches=len(bad_spec), impl_vs_model_mismatches=len(bad_impl)),
                    trusted_base=["float64 arithmetic is exact on the generated dyadic data (bit budget <= 44 bits per expression; results compared as exact rationals)",
